@@ -63,10 +63,12 @@ DenseSymmetricMatrix compute_covariance_matrix(RandomAccessIterator begin, Rando
     for (RandomAccessIterator iter = begin; iter != end; ++iter)
     {
         callback.vector(*iter, current_vector);
+        // accumulate centred vectors: E[x x^T] - mean mean^T cancels catastrophically
+        // when the data lie far from the origin compared to their spread
+        current_vector -= mean;
         covariance_matrix.selfadjointView<Eigen::Upper>().rankUpdate(current_vector, 1.0);
     }
     covariance_matrix /= (end - begin);
-    covariance_matrix.selfadjointView<Eigen::Upper>().rankUpdate(mean, -1.0);
 
     // only the upper triangle was accumulated, return the full symmetric matrix
     return DenseSymmetricMatrix(covariance_matrix.selfadjointView<Eigen::Upper>());
